@@ -1,6 +1,365 @@
-(* Proofs/C08.v — (in progress) *)
+(* Proofs/C08.v — the literal shortcuts are sound with respect to the lexer specification. *)
 From Coq Require Import List NArith ZArith Lia Bool.
+From Coq Require Import ZifyBool ZifyNat ZifyN.
 From Cedar Require Import Lib.Bytes Model.Literal.
 Import ListNotations.
-Lemma decode_old_nil : decode_old_string [] = Some [].
-Proof. reflexivity. Qed.
+Local Open Scope N_scope.
+
+(* ------------------------------------------------------------------ *)
+(* white space                                                         *)
+
+Inductive WS : bytes -> Prop :=
+| WS_nil : WS []
+| WS_1 b r : is_ascii_space b = true -> WS r -> WS (b :: r)
+| WS_2 a b r : sp2 a b = true -> WS r -> WS (a :: b :: r)
+| WS_3 a b c r : sp3 a b c = true -> WS r -> WS (a :: b :: c :: r).
+
+Lemma sp2_not_ascii a b : sp2 a b = true -> is_ascii_space a = false.
+Proof. unfold sp2, is_ascii_space, beq. intro H. lia. Qed.
+Lemma sp3_not_ascii a b c : sp3 a b c = true -> is_ascii_space a = false.
+Proof. unfold sp3, is_ascii_space, beq. intro H. lia. Qed.
+Lemma sp3_not_sp2 a b c : sp3 a b c = true -> sp2 a b = false.
+Proof. unfold sp3, sp2, beq. intro H. lia. Qed.
+
+Lemma WS_trim w : WS w -> forall x, trim_left (w ++ x) = trim_left x.
+Proof.
+  induction 1 as [|b r Hb _ IH|a b r H2 _ IH|a b c r H3 _ IH]; intro x.
+  - reflexivity.
+  - cbn [app trim_left]. rewrite Hb. apply IH.
+  - cbn [app trim_left]. rewrite (sp2_not_ascii _ _ H2), H2. apply IH.
+  - cbn [app trim_left]. rewrite (sp3_not_ascii _ _ _ H3), (sp3_not_sp2 _ _ _ H3), H3. apply IH.
+Qed.
+
+Lemma WS_trim_nil w : WS w -> trim_left w = [].
+Proof. intro H. rewrite <- (app_nil_r w). rewrite (WS_trim w H). reflexivity. Qed.
+
+Lemma WS_app a b : WS a -> WS b -> WS (a ++ b).
+Proof. induction 1; intro Hb; cbn [app]; [assumption|constructor; auto|apply WS_2; auto|apply WS_3; auto]. Qed.
+
+(* the first byte of white space is never part of a number, word or string *)
+Definition ws_head (b : byte) : bool :=
+  is_ascii_space b || beq b 194 || beq b 225 || beq b 226 || beq b 227.
+Lemma WS_head b r : WS (b :: r) -> ws_head b = true.
+Proof.
+  intro H. inversion H as [|? ? H1 _|? ? ? H2 _|? ? ? ? H3 _]; subst; unfold ws_head.
+  - rewrite H1. reflexivity.
+  - unfold sp2, beq in *. lia.
+  - unfold sp3, beq in *. lia.
+Qed.
+
+(* what trim_left_rev strips is white space, read backwards *)
+Lemma trim_left_rev_split : forall n s, (length s <= n)%nat ->
+  exists p, s = p ++ trim_left_rev s /\ WS (rev p).
+Proof.
+  induction n as [|n IH]; intros s Hn.
+  - destruct s; [|cbn in Hn; lia]. exists []. split; [reflexivity|constructor].
+  - destruct s as [|b r]; [exists []; split; [reflexivity|constructor]|].
+    cbn [trim_left_rev]. destruct (is_ascii_space b) eqn:Eb.
+    { destruct (IH r) as (p & Hp & Hw); [cbn in Hn; lia|].
+      exists (b :: p). split; [cbn [app]; congruence|].
+      cbn [rev]. apply WS_app; [exact Hw|]. constructor; [exact Eb|constructor]. }
+    destruct r as [|b2 r2]; [exists []; split; [reflexivity|constructor]|].
+    destruct (sp2 b2 b) eqn:E2.
+    { destruct (IH r2) as (p & Hp & Hw); [cbn in Hn; lia|].
+      exists (b :: b2 :: p). split; [cbn [app]; congruence|].
+      cbn [rev]. rewrite <- app_assoc. apply WS_app; [exact Hw|]. cbn [app]. apply WS_2; [exact E2|constructor]. }
+    destruct r2 as [|b3 r3]; [exists []; split; [reflexivity|constructor]|].
+    destruct (sp3 b3 b2 b) eqn:E3.
+    { destruct (IH r3) as (p & Hp & Hw); [cbn in Hn; lia|].
+      exists (b :: b2 :: b3 :: p). split; [cbn [app]; congruence|].
+      cbn [rev]. rewrite <- !app_assoc. apply WS_app; [exact Hw|]. cbn [app]. apply WS_3; [exact E3|constructor]. }
+    exists []. split; [reflexivity|constructor].
+Qed.
+
+Lemma trim_right_split u : exists w, u = trim_right u ++ w /\ WS w.
+Proof.
+  destruct (trim_left_rev_split (length (rev u)) (rev u) (le_n _)) as (p & Hp & Hw).
+  exists (rev p). split; [|exact Hw].
+  unfold trim_right. rewrite <- rev_app_distr, <- Hp, rev_involutive. reflexivity.
+Qed.
+
+(* ------------------------------------------------------------------ *)
+(* byte-class facts                                                    *)
+
+Lemma lower_byte_letter b : is_letter (lower_byte b) = true -> is_letter b = true.
+Proof.
+  unfold lower_byte, is_letter. destruct ((65 <=? b2n b) && (b2n b <=? 90)) eqn:E; intro H; [reflexivity|rewrite E in H; exact H].
+Qed.
+
+Lemma letter_ident b : is_letter b = true -> is_ident_char b = true.
+Proof. unfold is_ident_char. intro H. rewrite H. reflexivity. Qed.
+
+Lemma digit_not_space b : is_digit b = true -> is_ascii_space b = false /\ beq b 194 = false /\ beq b 225 = false /\ beq b 226 = false /\ beq b 227 = false.
+Proof. unfold is_digit, is_ascii_space, beq. intro H. repeat split; lia. Qed.
+
+Lemma trim_left_nonspace b r :
+  is_ascii_space b = false -> beq b 194 = false -> beq b 225 = false -> beq b 226 = false -> beq b 227 = false ->
+  trim_left (b :: r) = b :: r.
+Proof.
+  intros H1 H2 H3 H4 H5. cbn [trim_left]. rewrite H1.
+  destruct r as [|b2 r2]; [reflexivity|].
+  assert (E2 : sp2 b b2 = false) by (unfold sp2; rewrite H2; reflexivity). rewrite E2.
+  destruct r2 as [|b3 r3]; [reflexivity|].
+  assert (E3 : sp3 b b2 b3 = false) by (unfold sp3; rewrite H3, H4, H5; reflexivity). rewrite E3. reflexivity.
+Qed.
+
+(* ------------------------------------------------------------------ *)
+(* booleans                                                            *)
+
+Lemma span_ident_app t x :
+  forallb is_ident_char t = true ->
+  match x with [] => True | b :: _ => is_ident_char b = false end ->
+  span_ident (t ++ x) = (t, x).
+Proof.
+  intros Ht Hx. induction t as [|b t IH]; cbn [app].
+  - destruct x as [|b r]; [reflexivity|]. cbn [span_ident]. rewrite Hx. reflexivity.
+  - cbn [forallb] in Ht. apply andb_true_iff in Ht as [Hb Ht].
+    cbn [span_ident]. rewrite Hb, (IH Ht). reflexivity.
+Qed.
+
+Lemma ws_head_not_ident b : ws_head b = true -> is_ident_char b = false /\ beq b 46 = false /\ is_digit b = false
+  /\ beq b 101 = false /\ beq b 69 = false /\ beq b 34 = false.
+Proof.
+  unfold ws_head, is_ident_char, is_letter, is_digit, is_ascii_space, beq. intro H. repeat split; lia.
+Qed.
+
+Lemma fold_eq_letters t kw :
+  forallb is_letter kw = true -> fold_eq t kw = true -> forallb is_letter t = true /\ length t = length kw.
+Proof.
+  unfold fold_eq. intros Hk H. apply bytes_eqb_eq in H. subst kw.
+  split; [|now rewrite map_length].
+  induction t as [|b t IH]; [reflexivity|]. cbn [map forallb] in *.
+  apply andb_true_iff in Hk as [H1 H2]. rewrite (lower_byte_letter _ H1), (IH H2). reflexivity.
+Qed.
+
+Lemma letter_first_facts b : is_letter b = true ->
+  beq b 45 = false /\ beq b 43 = false /\ is_digit b = false /\ beq b 46 = false /\ beq b 34 = false.
+Proof. unfold is_letter, is_digit, beq. intro H. repeat split; lia. Qed.
+
+Lemma WS_only_space {A} (a : A) w : WS w -> only_space_after (Some (a, w)) = Some a.
+Proof. intro H. unfold only_space_after. rewrite (WS_trim_nil _ H). reflexivity. Qed.
+
+Lemma ws_x_head w : WS w -> match w with [] => True | b :: _ => ws_head b = true end.
+Proof. intro H. destruct w; [exact I|]. exact (WS_head _ _ H). Qed.
+
+(* a keyword (all letters, no scope prefix can follow: next is white space or the end) *)
+Lemma lex_bool_kw t w (v : bool) :
+  WS w -> t <> [] -> forallb is_letter t = true ->
+  (if fold_eq t kw_true then Some true else if fold_eq t kw_false then Some false else None) = Some v ->
+  lex_core (t ++ w) = Some (LBool v).
+Proof.
+  intros Hw Hne Hl Hv.
+  destruct t as [|c t']; [congruence|]. cbn [app]. unfold lex_core.
+  pose proof Hl as Hl0. cbn [forallb] in Hl0. apply andb_true_iff in Hl0 as [Hc _].
+  destruct (letter_first_facts _ Hc) as (F1 & F2 & F3 & F4 & F5).
+  rewrite F1, F2. cbn [orb]. unfold starts_number. rewrite F3, F4. cbn [orb andb]. rewrite F5, Hc. cbn [orb].
+  unfold lex_bool. change (c :: t' ++ w) with ((c :: t') ++ w).
+  rewrite span_ident_app.
+  - assert (S : match w with d :: _ => beq d 46 && (fold_eq (c :: t') kw_my || fold_eq (c :: t') kw_target || fold_eq (c :: t') kw_parent) | [] => false end = false).
+    { pose proof (ws_x_head _ Hw) as Hh. destruct w as [|d w']; [reflexivity|].
+      destruct (ws_head_not_ident _ Hh) as (_ & Hd & _). rewrite Hd. reflexivity. }
+    rewrite S.
+    destruct (fold_eq (c :: t') kw_true).
+    + inversion Hv; subst v. rewrite (WS_only_space _ _ Hw). reflexivity.
+    + destruct (fold_eq (c :: t') kw_false); [|discriminate].
+      inversion Hv; subst v. rewrite (WS_only_space _ _ Hw). reflexivity.
+  - clear -Hl. induction (c :: t') as [|b r IH]; [reflexivity|]. cbn [forallb] in *.
+    apply andb_true_iff in Hl as [H1 H2]. rewrite (letter_ident _ H1), (IH H2). reflexivity.
+  - pose proof (ws_x_head _ Hw) as Hh. destruct w as [|d w']; [exact I|].
+    apply (ws_head_not_ident _ Hh).
+Qed.
+
+(* ------------------------------------------------------------------ *)
+(* numbers                                                             *)
+
+Lemma span_digits_spec s : forall ds r, span_digits s = (ds, r) ->
+  s = ds ++ r /\ forallb is_digit ds = true /\ match r with [] => True | b :: _ => is_digit b = false end.
+Proof.
+  induction s as [|b s IH]; intros ds r H; cbn [span_digits] in H.
+  - inversion H; subst. auto.
+  - destruct (is_digit b) eqn:D.
+    + destruct (span_digits s) as [d rest] eqn:E. inversion H; subst.
+      destruct (IH d r eq_refl) as (H1 & H2 & H3). subst s.
+      split; [reflexivity|]. split; [cbn [forallb]; rewrite D, H2; reflexivity|exact H3].
+    + inversion H; subst. split; [reflexivity|]. split; [reflexivity|exact D].
+Qed.
+
+Lemma scan_num_digits ds : forall x hd he acc, forallb is_digit ds = true ->
+  scan_num (ds ++ x) hd he acc = scan_num x hd he (rev ds ++ acc).
+Proof.
+  induction ds as [|d ds IH]; intros x hd he acc H; [reflexivity|].
+  cbn [forallb] in H. apply andb_true_iff in H as [Hd H].
+  cbn [app scan_num]. rewrite Hd, (IH _ _ _ _ H). cbn [rev]. rewrite <- app_assoc. reflexivity.
+Qed.
+
+Lemma scan_num_stop x hd he acc : WS x -> scan_num x hd he acc = Some (rev acc, x, hd || he).
+Proof.
+  intro H. destruct x as [|b r]; [reflexivity|].
+  destruct (ws_head_not_ident _ (WS_head _ _ H)) as (_ & H1 & H2 & H3 & H4 & _).
+  cbn [scan_num]. rewrite H2, H1, H3, H4. reflexivity.
+Qed.
+
+Lemma digit_facts b : is_digit b = true ->
+  beq b 45 = false /\ beq b 43 = false /\ beq b 46 = false /\ beq b 101 = false /\ beq b 69 = false /\ beq b 34 = false.
+Proof. unfold is_digit, beq. intro H. repeat split; lia. Qed.
+
+(* integer token: all digits, then white space *)
+Lemma lex_number_int c ds w : WS w -> is_digit c = true -> forallb is_digit ds = true ->
+  (match ds with [] => true | _ => negb (beq c 48) end) = true ->
+  lex_number ((c :: ds) ++ w) =
+    let z := dec_value (c :: ds) in
+    if (z <? 2 ^ 63)%Z then Some (TInt z, w) else if (z =? 2 ^ 63)%Z then Some (TMinMag, w) else None.
+Proof.
+  intros Hw Hc Hds Hz. cbn [app]. unfold lex_number. rewrite Hc.
+  rewrite (scan_num_digits ds w false false [c] Hds), (scan_num_stop _ _ _ _ Hw).
+  rewrite rev_app_distr, rev_involutive. cbn [rev app orb].
+  destruct ds as [|d ds'].
+  - cbn zeta. assert (L : (dec_value [c] <? 2 ^ 63)%Z = true).
+    { unfold dec_value, dec_value_acc. pose proof (b2n_lt c). lia. }
+    rewrite L. reflexivity.
+  - apply negb_true_iff in Hz. rewrite Hz. reflexivity.
+Qed.
+
+Definition is_e (b : byte) : bool := beq b 101 || beq b 69.
+Definition is_sign (b : byte) : bool := beq b 43 || beq b 45.
+
+(* the exponent part classifyNumberLiteral accepts *)
+Inductive exp_tail : bytes -> Prop :=
+| ET_none : exp_tail []
+| ET_plain e es : is_e e = true -> es <> [] -> forallb is_digit es = true -> exp_tail (e :: es)
+| ET_signed e sg es : is_e e = true -> is_sign sg = true -> es <> [] -> forallb is_digit es = true ->
+    exp_tail (e :: sg :: es).
+
+Lemma last_is_digit_app a d ds : forallb is_digit (d :: ds) = true -> last_is_digit (a ++ d :: ds) = true.
+Proof.
+  intro H. unfold last_is_digit. rewrite rev_app_distr.
+  assert (G : forall l, l <> [] -> forallb is_digit l = true -> match rev l ++ rev a with b :: _ => is_digit b | [] => false end = true).
+  { intros l Hl Hf. destruct (rev l) as [|b r] eqn:E.
+    - apply (f_equal (@rev byte)) in E. rewrite rev_involutive in E. cbn in E. congruence.
+    - cbn [app]. rewrite forallb_forall in Hf. apply Hf. apply in_rev. rewrite E. left. reflexivity. }
+  apply G; [discriminate|exact H].
+Qed.
+
+Lemma scan_frac_tail fs tail w acc :
+  WS w -> fs <> [] -> forallb is_digit fs = true -> exp_tail tail ->
+  scan_num (fs ++ tail ++ w) true false acc = Some (rev acc ++ fs ++ tail, w, true)
+  /\ last_is_digit (rev acc ++ fs ++ tail) = true.
+Proof.
+  intros Hw Hne Hfs Ht.
+  rewrite (scan_num_digits fs _ true false acc Hfs).
+  destruct fs as [|f0 fs0]; [congruence|].
+  inversion Ht as [|e es He Hes Hd|e sg es He Hs Hes Hd]; subst tail.
+  - cbn [app]. rewrite (scan_num_stop _ _ _ _ Hw), rev_app_distr, rev_involutive, app_nil_r. cbn [orb].
+    split; [reflexivity|]. apply last_is_digit_app. exact Hfs.
+  - assert (NotD : is_digit e = false) by (unfold is_e, is_digit, beq in *; lia).
+    assert (Not46 : beq e 46 = false) by (unfold is_e, beq in *; lia).
+    assert (X : scan_num (e :: es ++ w) true false (rev (f0 :: fs0) ++ acc)
+                = scan_num (es ++ w) true true (e :: rev (f0 :: fs0) ++ acc)).
+    { destruct es as [|e0 es0]; [congruence|].
+      assert (Hd0 : is_digit e0 = true) by (cbn [forallb] in Hd; apply andb_true_iff in Hd; tauto).
+      destruct (digit_facts _ Hd0) as (S1 & S2 & _).
+      remember (e0 :: es0) as es1. cbn [scan_num]. rewrite NotD, Not46. cbn [andb negb].
+      unfold is_e in He. rewrite He. cbn [andb]. subst es1. cbn [app]. rewrite S2, S1. reflexivity. }
+    cbn [app]. rewrite X.
+    rewrite (scan_num_digits es w true true _ Hd), (scan_num_stop _ _ _ _ Hw).
+    cbn [orb]. rewrite !rev_app_distr, rev_involutive. cbn [rev]. rewrite !rev_app_distr, !rev_involutive. cbn [rev app].
+    rewrite <- !app_assoc. cbn [app].
+    split; [reflexivity|].
+    destruct es as [|e0 es0]; [congruence|].
+    replace (rev acc ++ f0 :: fs0 ++ e :: e0 :: es0) with ((rev acc ++ f0 :: fs0 ++ [e]) ++ e0 :: es0)
+      by (rewrite <- !app_assoc; cbn [app]; rewrite <- app_assoc; reflexivity).
+    apply last_is_digit_app. exact Hd.
+  - assert (NotD : is_digit e = false) by (unfold is_e, is_digit, beq in *; lia).
+    assert (Not46 : beq e 46 = false) by (unfold is_e, beq in *; lia).
+    assert (X : scan_num (e :: sg :: es ++ w) true false (rev (f0 :: fs0) ++ acc)
+                = scan_num (es ++ w) true true (sg :: e :: rev (f0 :: fs0) ++ acc)).
+    { remember (es ++ w) as Y. cbn [scan_num]. rewrite NotD, Not46. cbn [andb negb].
+      unfold is_e in He. rewrite He. cbn [andb]. unfold is_sign in Hs. rewrite Hs. reflexivity. }
+    cbn [app]. rewrite X.
+    rewrite (scan_num_digits es w true true _ Hd), (scan_num_stop _ _ _ _ Hw).
+    cbn [orb]. rewrite !rev_app_distr, rev_involutive. cbn [rev]. rewrite !rev_app_distr, !rev_involutive. cbn [rev app].
+    rewrite <- !app_assoc. cbn [app].
+    split; [reflexivity|].
+    destruct es as [|e0 es0]; [congruence|].
+    replace (rev acc ++ f0 :: fs0 ++ e :: sg :: e0 :: es0) with ((rev acc ++ f0 :: fs0 ++ [e; sg]) ++ e0 :: es0)
+      by (rewrite <- !app_assoc; cbn [app]; rewrite <- app_assoc; reflexivity).
+    apply last_is_digit_app. exact Hd.
+Qed.
+
+(* what classifyNumberLiteral accepts, structurally *)
+Lemma classify_int u : classify_unsigned u = NumInt ->
+  exists c ds, u = c :: ds /\ is_digit c = true /\ forallb is_digit ds = true /\
+               (match ds with [] => true | _ => negb (beq c 48) end) = true.
+Proof.
+  unfold classify_unsigned. destruct (span_digits u) as [ds r] eqn:E.
+  destruct (span_digits_spec _ _ _ E) as (Hu & Hd & _).
+  destruct r as [|c r1].
+  - rewrite app_nil_r in Hu. subst u.
+    destruct ds as [|d [|d2 ds']]; intro H; try discriminate.
+    + exists d, []. cbn [forallb] in Hd. apply andb_true_iff in Hd as [H1 _]. auto.
+    + destruct (beq d 48) eqn:Z; [discriminate|].
+      exists d, (d2 :: ds'). cbn [forallb] in Hd. apply andb_true_iff in Hd as [H1 H2].
+      repeat split; auto. rewrite Z. reflexivity.
+  - destruct (negb (beq c 46)); [discriminate|].
+    destruct (span_digits r1) as [fs r2]. destruct fs; [discriminate|].
+    destruct r2 as [|e r3]; [discriminate|].
+    destruct (negb (beq e 101 || beq e 69)); [discriminate|].
+    destruct (span_digits _) as [es r5]. destruct es, r5; discriminate.
+Qed.
+
+Lemma classify_real u : classify_unsigned u = NumReal ->
+  exists ds fs tail, u = ds ++ x2e :: fs ++ tail /\ forallb is_digit ds = true /\
+                     fs <> [] /\ forallb is_digit fs = true /\ exp_tail tail.
+Proof.
+  unfold classify_unsigned. destruct (span_digits u) as [ds r] eqn:E.
+  destruct (span_digits_spec _ _ _ E) as (Hu & Hd & _).
+  destruct r as [|c r1].
+  { destruct ds as [|d [|d2 ds']]; try discriminate. destruct (beq d 48); discriminate. }
+  destruct (beq c 46) eqn:C; cbn [negb]; [|discriminate].
+  assert (c = x2e) by (apply byte_eqb_eq; unfold byte_eqb; unfold beq in C; exact C). subst c.
+  destruct (span_digits r1) as [fs r2] eqn:E2.
+  destruct (span_digits_spec _ _ _ E2) as (Hr1 & Hfs & _).
+  destruct fs as [|f0 fs0]; [discriminate|].
+  destruct r2 as [|e r3].
+  - intros _. exists ds, (f0 :: fs0), []. rewrite app_nil_r in Hr1. subst r1. rewrite app_nil_r.
+    repeat split; auto; [discriminate|constructor].
+  - destruct (beq e 101 || beq e 69) eqn:Ee; cbn [negb]; [|discriminate].
+    set (r4 := match r3 with sg :: r' => if beq sg 43 || beq sg 45 then r' else r3 | [] => r3 end).
+    destruct (span_digits r4) as [es r5] eqn:E5.
+    destruct (span_digits_spec _ _ _ E5) as (Hr4 & Hes & _).
+    destruct es as [|e0 es0]; [destruct r5; discriminate|]. destruct r5; [|discriminate]. intros _.
+    rewrite app_nil_r in Hr4.
+    exists ds, (f0 :: fs0), (e :: r3). subst u r1.
+    repeat split; auto; [discriminate|].
+    subst r4. destruct r3 as [|sg r'].
+    + discriminate.
+    + destruct (beq sg 43 || beq sg 45) eqn:Sg.
+      * subst r'. apply ET_signed; auto. discriminate.
+      * rewrite Hr4. apply ET_plain; auto. discriminate.
+Qed.
+
+Lemma lex_number_real ds fs tail w :
+  WS w -> forallb is_digit ds = true -> fs <> [] -> forallb is_digit fs = true -> exp_tail tail ->
+  lex_number ((ds ++ x2e :: fs ++ tail) ++ w) = Some (TReal (ds ++ x2e :: fs ++ tail), w).
+Proof.
+  intros Hw Hds Hne Hfs Ht.
+  assert (Hf0 : exists f0 fs0, fs = f0 :: fs0 /\ is_digit f0 = true).
+  { destruct fs as [|f0 fs0]; [congruence|]. exists f0, fs0. cbn [forallb] in Hfs. apply andb_true_iff in Hfs. tauto. }
+  destruct Hf0 as (f0 & fs0 & Ef & Hf0).
+  assert (Dot : forall acc, scan_num (x2e :: fs ++ tail ++ w) false false acc
+                            = scan_num (fs ++ tail ++ w) true false (x2e :: acc)).
+  { intro acc. remember (fs ++ tail ++ w) as Y. cbn [scan_num].
+    change (is_digit x2e) with false. change (beq x2e 46) with true. cbn [andb negb].
+    subst Y fs. cbn [app]. rewrite Hf0. reflexivity. }
+  rewrite <- !app_assoc. cbn [app]. rewrite <- !app_assoc.
+  destruct ds as [|c ds'].
+  - cbn [app]. unfold lex_number. change (is_digit x2e) with false. change (beq x2e 46) with true.
+    rewrite Ef at 1. cbn [app]. rewrite Hf0. rewrite <- Ef.
+    destruct (scan_frac_tail fs tail w [x2e] Hw Hne Hfs Ht) as [S L]. rewrite S. cbn [rev app] in *. rewrite L. reflexivity.
+  - cbn [forallb] in Hds. apply andb_true_iff in Hds as [Hc Hds].
+    cbn [app]. unfold lex_number. rewrite Hc.
+    rewrite (scan_num_digits ds' _ false false [c] Hds), Dot.
+    destruct (scan_frac_tail fs tail w (x2e :: rev ds' ++ [c]) Hw Hne Hfs Ht) as [S L]. rewrite S.
+    cbn [rev] in *. rewrite rev_app_distr, rev_involutive in *. cbn [rev app] in *. rewrite <- app_assoc in *. cbn [app] in *.
+    rewrite L. reflexivity.
+Qed.
